@@ -220,7 +220,7 @@ PATHS = []
 def expressions(tier):
     """quick: all texts with <= 2 atoms over 6 navigations; thorough: <= 2 atoms over 9 navigations plus <= 3 atoms over 2 navigations
     (3 atoms over the full alphabet would be 2.1 million expressions, about four hours)"""
-    navs = ["packages", "classes", "methods", "~ext", "~packages", "'a'~classes"]
+    navs = ["packages", "classes", "methods", "~ext", "~packages", "'a'~classes", "'a'~packages"]
     spaces = [(navs, 2)]
     if tier == "thorough":
         spaces = [(navs + ["~classes", "ext", "'b'~packages"], 2), (["classes", "~ext"], 3)]
